@@ -2,7 +2,7 @@
     ExtrOcamlBasic is used; Z, positive, nat, spec_float, std++ gmap stay extracted Coq datatypes. *)
 Require Import ExtrOcamlBasic.
 From CJ Require Import Base Dbl Tree Heap CoreDefs CoreOps.
-From CJ Require CoreOpsBridgeOwned CoreOpsBridgeDupDefs.
+From CJ Require CoreOpsBridgeOwned CoreOpsBridgeDupDefs CoreOpsBridgeRefDefs.
 Extraction Language OCaml.
 Extraction "model_core.ml"
   Base.cstr Base.rd Dbl.sf_of_bits Dbl.bits_of_sf Dbl.sat_int Dbl.dbl_of_int Tree.node_size
@@ -11,4 +11,4 @@ Extraction "model_core.ml"
   CoreOps.owned_blocks CoreOps.share_blocks CoreOps.live_count CoreOps.fail_kth CoreOps.fail_mask CoreOps.err_name
   CoreOps.item_of CoreOps.live_roots
   (* the boolean acceptance of C06_history_extracted / C06_history_extractedD (with cJSON_Duplicate): the driver reports which generated histories fall under the theorem *)
-  CoreOpsBridgeOwned.accepted_rules CoreOpsBridgeDupDefs.accepted_rulesD.
+  CoreOpsBridgeOwned.accepted_rules CoreOpsBridgeDupDefs.accepted_rulesD CoreOpsBridgeRefDefs.accepted_rulesR.
